@@ -1,4 +1,22 @@
 // ---- lemmas: consumer_group (C08) — proved on every run, spec level only ----
+// (no executable code of /repo appears here; the lemmas speak about the spec predicates of prelude.rs only)
+
+pub proof fn lemma_divmod(x: int, m: int)
+    requires 0 <= x, 0 < m,
+    ensures x == (x / m) * m + x % m, 0 <= x % m < m, 0 <= x / m,
+{
+    vstd::arithmetic::div_mod::lemma_fundamental_div_mod(x, m);
+    vstd::arithmetic::div_mod::lemma_mod_pos_bound(x, m);
+    vstd::arithmetic::div_mod::lemma_div_pos_is_pos(x, m);
+    vstd::arithmetic::mul::lemma_mul_is_commutative(m, x / m);
+}
+
+pub proof fn lemma_divmod_unique(x: int, m: int, q: int, r: int)
+    requires 0 < m, 0 <= r < m, x == q * m + r,
+    ensures x / m == q, x % m == r,
+{
+    vstd::arithmetic::div_mod::lemma_fundamental_div_mod_converse(x, m, q, r);
+}
 
 // one step of the deal: partition index p goes to member p mod m, at position rr_count(p, m, p mod m)
 // label: C08.rr.step.lemma
@@ -12,5 +30,317 @@ pub proof fn lemma_rr_step(p: int, m: int)
         rr_count(p, m, p % m) == 0 ==> p % m == p,
         forall|i: int| 0 <= i < m ==> 0 <= (#[trigger] rr_count(p, m, i)) && rr_count(p, m, i) <= p,
 {
-    assume(false);
+    lemma_divmod(p, m);
+    let q = p / m;
+    let r = p % m;
+    if r + 1 < m {
+        lemma_divmod_unique(p + 1, m, q, r + 1);
+    } else {
+        assert((q + 1) * m == q * m + m) by (nonlinear_arith);
+        lemma_divmod_unique(p + 1, m, q + 1, 0);
+    }
+    assert(q * m >= q) by (nonlinear_arith) requires q >= 0, m >= 1;
+    assert(q == 0 ==> q * m == 0) by (nonlinear_arith);
+}
+
+// what the closed form says about one member, in terms of its share
+pub proof fn lemma_member_rr_share(mem: ConsumerGroupMember, n: int, m: int, i: int)
+    requires member_rr(mem, n, m, i), 0 <= i < m, 0 <= n <= u32::MAX,
+    ensures
+        share_wf(mem),
+        share(mem).len() == rr_count(n, m, i),
+        0 <= rr_count(n, m, i) <= n,
+        forall|j: int| 0 <= j < share(mem).len() ==> (#[trigger] share(mem)[j]) as int == j * m + i + 1 && 0 <= j * m + i < n,
+        cursor_fresh(mem),
+        member_wf(mem),
+{
+    lemma_divmod(n, m);
+    let qq = n / m;
+    let rr = n % m;
+    let c = rr_count(n, m, i);
+    assert(qq * m >= qq) by (nonlinear_arith) requires qq >= 0, m >= 1;
+    assert(0 <= c <= n);
+    assert forall|j: int| 0 <= j < share(mem).len() implies (#[trigger] share(mem)[j]) as int == j * m + i + 1 && 0 <= j * m + i < n by {
+        let ju = j as u32;
+        assert(mem.partitions@.contains_key(ju));
+        assert(mem.partitions@[ju] as int == ju * m + i + 1);
+        assert(0 <= j * m) by (nonlinear_arith) requires j >= 0, m >= 1;
+        if j < qq {
+            assert(j * m <= (qq - 1) * m) by (nonlinear_arith) requires j <= qq - 1, m >= 1;
+            assert((qq - 1) * m == qq * m - m) by (nonlinear_arith);
+        } else {
+            assert(j == qq && i < rr);
+        }
+    }
+    if c > 0 {
+        assert(share(mem)[0] as int == 0 * m + i + 1);
+        assert(0 * m == 0) by (nonlinear_arith);
+        assert(share(mem).contains(share(mem)[0]));
+    }
+}
+
+// The mechanism implies the property clauses: dealing partition index q to member (q mod m) at position (q div m)
+// gives every partition id in 1..=n to exactly one member, nothing else, shares differing by at most one, cursors
+// on the first owned partition.
+// label: C08.rr.sound
+pub proof fn lemma_rr_gives_c08(mm: Map<u32, ConsumerGroupMember>, ks: Seq<u32>, n: int)
+    requires assigned_rr(mm, ks, n), ks.len() >= 1, 0 <= n <= u32::MAX,
+    ensures
+        c08_excl(mm, n),
+        c08_even(mm),
+        c08_cursor(mm),
+        forall|k: u32| mm.contains_key(k) ==> member_wf(#[trigger] mm[k]),
+{
+    let m = ks.len() as int;
+    // every member sits at some position of the key order
+    assert forall|k: u32| mm.contains_key(k) implies
+        exists|i: int| 0 <= i < m && ks[i] == k && member_rr(mm[k], n, m, i) by {
+        assert(ks.contains(k));
+        let i = choose|i: int| 0 <= i < ks.len() && ks[i] == k;
+        assert(member_rr(mm[ks[i]], n, m, i));
+    }
+    assert forall|k: u32| mm.contains_key(k) implies share_wf(#[trigger] mm[k]) && cursor_fresh(mm[k]) && member_wf(mm[k]) by {
+        let i = choose|i: int| 0 <= i < m && ks[i] == k && member_rr(mm[k], n, m, i);
+        lemma_member_rr_share(mm[k], n, m, i);
+    }
+    // evenness
+    assert forall|k1: u32, k2: u32| mm.contains_key(k1) && mm.contains_key(k2)
+        implies share(#[trigger] mm[k1]).len() <= share(#[trigger] mm[k2]).len() + 1 by {
+        let i1 = choose|i: int| 0 <= i < m && ks[i] == k1 && member_rr(mm[k1], n, m, i);
+        let i2 = choose|i: int| 0 <= i < m && ks[i] == k2 && member_rr(mm[k2], n, m, i);
+        lemma_member_rr_share(mm[k1], n, m, i1);
+        lemma_member_rr_share(mm[k2], n, m, i2);
+    }
+    // every partition id occurs
+    assert forall|pid: u32| #[trigger] is_partition(pid, n) implies exists|k: u32, j: int| owns(mm, k, j, pid) by {
+        let q = pid as int - 1;
+        lemma_divmod(q, m);
+        lemma_divmod(n, m);
+        let i = q % m;
+        let j = q / m;
+        let k = ks[i];
+        assert(ks.contains(k));
+        assert(mm.contains_key(k));
+        assert(member_rr(mm[ks[i]], n, m, i));
+        lemma_member_rr_share(mm[k], n, m, i);
+        let qq = n / m;
+        let rr = n % m;
+        if i < rr {
+            if j >= qq + 1 {
+                assert(j * m >= (qq + 1) * m) by (nonlinear_arith) requires j >= qq + 1, m >= 1;
+                assert((qq + 1) * m == qq * m + m) by (nonlinear_arith);
+                assert(false);
+            }
+        } else {
+            if j >= qq {
+                assert(j * m >= qq * m) by (nonlinear_arith) requires j >= qq, m >= 1;
+                assert(false);
+            }
+        }
+        assert(0 <= j < share(mm[k]).len());
+        assert(share(mm[k])[j] as int == j * m + i + 1);
+        assert(owns(mm, k, j, pid));
+    }
+    // ... in exactly one place
+    assert forall|k1: u32, j1: int, k2: u32, j2: int, pid: u32|
+        owns(mm, k1, j1, pid) && owns(mm, k2, j2, pid) implies k1 == k2 && j1 == j2 by {
+        let i1 = choose|i: int| 0 <= i < m && ks[i] == k1 && member_rr(mm[k1], n, m, i);
+        let i2 = choose|i: int| 0 <= i < m && ks[i] == k2 && member_rr(mm[k2], n, m, i);
+        lemma_member_rr_share(mm[k1], n, m, i1);
+        lemma_member_rr_share(mm[k2], n, m, i2);
+        assert(share(mm[k1])[j1] as int == j1 * m + i1 + 1);
+        assert(share(mm[k2])[j2] as int == j2 * m + i2 + 1);
+        lemma_divmod_unique(pid as int - 1, m, j1, i1);
+        lemma_divmod_unique(pid as int - 1, m, j2, i2);
+    }
+    // ... and nothing else occurs
+    assert forall|k: u32, j: int, pid: u32| owns(mm, k, j, pid) implies is_partition(pid, n) by {
+        let i = choose|i: int| 0 <= i < m && ks[i] == k && member_rr(mm[k], n, m, i);
+        lemma_member_rr_share(mm[k], n, m, i);
+        assert(share(mm[k])[j] as int == j * m + i + 1);
+    }
+}
+
+// ---- rotation: what a run of polls by one member returns (a lemma over the contract [C08.rot]) ----------
+// states ms[0..=T] of one member, outputs rs[0..T): consecutive states are related by the poll contract
+pub open spec fn poll_run(ms: Seq<ConsumerGroupMember>, rs: Seq<Option<u32>>) -> bool {
+    &&& ms.len() == rs.len() + 1
+    &&& forall|t: int| 0 <= t < rs.len() ==> rot_post(#[trigger] ms[t], ms[t + 1], rs[t])
+}
+// position of the cursor after t polls, starting at i0, in a share of length l
+pub open spec fn rot_pos(i0: int, t: int, l: int) -> int { (i0 + t) % l }
+
+// label: C08.rot.run
+pub proof fn c08_rot_run(ms: Seq<ConsumerGroupMember>, rs: Seq<Option<u32>>, i0: u32, t: int)
+    requires poll_run(ms, rs), member_wf(ms[0]), ms[0].current_partition_index == Some(i0), 0 <= t <= rs.len(),
+    ensures
+        ms[t].partitions == ms[0].partitions,
+        share(ms[t]) == share(ms[0]),
+        0 <= rot_pos(i0 as int, t, share(ms[0]).len() as int) < share(ms[0]).len(),
+        ms[t].current_partition_index == Some(rot_pos(i0 as int, t, share(ms[0]).len() as int) as u32),
+        t >= 1 ==> rs[t - 1] == Some(share(ms[0])[rot_pos(i0 as int, t - 1, share(ms[0]).len() as int)]),
+    decreases t,
+{
+    let l = share(ms[0]).len() as int;
+    assert(0 <= i0 < l);
+    if t == 0 {
+        vstd::arithmetic::div_mod::lemma_small_mod(i0 as nat, l as nat);
+    } else {
+        c08_rot_run(ms, rs, i0, t - 1);
+        let x = i0 as int + t - 1;
+        assert(rot_post(ms[t - 1], ms[t - 1 + 1], rs[t - 1]));
+        vstd::arithmetic::div_mod::lemma_add_mod_noop_right(1, x, l);
+        vstd::arithmetic::div_mod::lemma_mod_pos_bound(x + 1, l);
+        assert(1 + x == i0 as int + t);
+    }
+}
+
+// `|share|` consecutive polls visit every position of the share exactly once (hence, with [C08.excl], every owned
+// partition exactly once): in any window [s, s+l) of polls the cursor positions are pairwise different and every
+// position j occurs.
+// label: C08.rot.cycle
+pub proof fn c08_rot_cycle(ms: Seq<ConsumerGroupMember>, rs: Seq<Option<u32>>, i0: u32, s: int, j: int)
+    requires
+        poll_run(ms, rs), member_wf(ms[0]), ms[0].current_partition_index == Some(i0),
+        0 <= s, s + share(ms[0]).len() <= rs.len(), 0 <= j < share(ms[0]).len(),
+    ensures
+        forall|t: int| s <= t < s + share(ms[0]).len() ==> #[trigger] rs[t] == Some(share(ms[0])[rot_pos(i0 as int, t, share(ms[0]).len() as int)]),
+        exists|t: int| s <= t < s + share(ms[0]).len() && rot_pos(i0 as int, t, share(ms[0]).len() as int) == j && rs[t] == Some(share(ms[0])[j]),
+        forall|t1: int, t2: int| s <= t1 < t2 < s + share(ms[0]).len()
+            ==> rot_pos(i0 as int, t1, share(ms[0]).len() as int) != rot_pos(i0 as int, t2, share(ms[0]).len() as int),
+{
+    let l = share(ms[0]).len() as int;
+    let b = i0 as int;
+    assert forall|t: int| s <= t < s + l implies #[trigger] rs[t] == Some(share(ms[0])[rot_pos(b, t, l)]) by {
+        c08_rot_run(ms, rs, i0, t + 1);
+    }
+    // every position occurs
+    let a = (b + s) % l;
+    vstd::arithmetic::div_mod::lemma_mod_pos_bound(b + s, l);
+    let d = if j >= a { j - a } else { j + l - a };
+    let t = s + d;
+    vstd::arithmetic::div_mod::lemma_small_mod(d as nat, l as nat);
+    vstd::arithmetic::div_mod::lemma_add_mod_noop(b + s, d, l);
+    assert(b + s + d == b + t);
+    if j >= a {
+        vstd::arithmetic::div_mod::lemma_small_mod(j as nat, l as nat);
+    } else {
+        vstd::arithmetic::div_mod::lemma_mod_multiples_vanish(1, j, l);
+        assert(l * 1 + j == j + l);
+        vstd::arithmetic::div_mod::lemma_small_mod(j as nat, l as nat);
+    }
+    assert(rot_pos(b, t, l) == j);
+    assert(rs[t] == Some(share(ms[0])[rot_pos(b, t, l)]));
+    // no position occurs twice
+    assert forall|t1: int, t2: int| s <= t1 < t2 < s + l implies rot_pos(b, t1, l) != rot_pos(b, t2, l) by {
+        if rot_pos(b, t1, l) == rot_pos(b, t2, l) {
+            let x1 = b + t1;
+            let x2 = b + t2;
+            lemma_divmod(x1, l);
+            lemma_divmod(x2, l);
+            let k = x2 / l - x1 / l;
+            assert(x2 - x1 == k * l) by (nonlinear_arith)
+                requires x1 == (x1 / l) * l + x1 % l, x2 == (x2 / l) * l + x2 % l, x1 % l == x2 % l, k == x2 / l - x1 / l;
+            assert(0 < k * l < l);
+            assert(false) by (nonlinear_arith) requires 0 < k * l < l, l > 0;
+        }
+    }
+}
+
+// ---- histories ---------------------------------------------------------------------------------------
+pub enum GroupEvent { Join(u32), Leave(u32), Reassign(u32), Poll(u32) }
+
+// A poll leaves every share untouched and keeps the members well-formed: the invariant survives it.
+// (hypotheses = the postconditions [C08.rot.poll], [C08.poll.others], [C08.poll.frame], [C08.inv.poll])
+// label: C08.inv.poll.lemma
+pub proof fn lemma_poll_keeps_inv(a: ConsumerGroup, b: ConsumerGroup, id: u32, r: Option<u32>)
+    requires
+        group_inv(a), group_wf(b), a.members@.contains_key(id),
+        b.members@.contains_key(id) && rot_post(a.members@[id], b.members@[id], r),
+        forall|k: u32| k != id ==> (b.members@.contains_key(k) == a.members@.contains_key(k))
+            && (a.members@.contains_key(k) ==> #[trigger] b.members@[k] == a.members@[k]),
+        b.members@.dom() =~= a.members@.dom(), b.partitions_count == a.partitions_count,
+    ensures group_inv(b),
+{
+    let ma = a.members@;
+    let mb = b.members@;
+    let n = a.partitions_count as int;
+    assert forall|k: u32| mb.contains_key(k) implies share(#[trigger] mb[k]) == share(ma[k]) && share_wf(ma[k]) == share_wf(mb[k]) by {
+        if k == id { assert(mb[k].partitions == ma[k].partitions); } else { assert(mb[k] == ma[k]); }
+    }
+    if ma.len() >= 1 {
+        assert forall|k: u32, j: int, pid: u32| owns(mb, k, j, pid) == owns(ma, k, j, pid) by {
+            if mb.contains_key(k) { assert(share(mb[k]) == share(ma[k])); }
+        }
+        assert forall|pid: u32| #[trigger] is_partition(pid, n) implies exists|k: u32, j: int| owns(mb, k, j, pid) by {
+            let (k, j) = choose|k: u32, j: int| owns(ma, k, j, pid);
+            assert(owns(mb, k, j, pid));
+        }
+        assert(c08_excl(mb, n));
+        assert(c08_even(mb));
+    }
+}
+
+// what the contracts of the four mutators say about one step (same predicates as contracts.vspec; the resource
+// bound on the number of members is the contracts' precondition)
+pub open spec fn step_contract(a: ConsumerGroup, e: GroupEvent, b: ConsumerGroup) -> bool {
+    match e {
+        GroupEvent::Join(id) => (group_wf(a) && members_bound(a)) ==>
+            b.members@.dom() =~= a.members@.dom().insert(id) && b.partitions_count == a.partitions_count && group_inv(b),
+        GroupEvent::Leave(id) => (group_inv(a) && members_bound(a)) ==>
+            b.members@.dom() =~= a.members@.dom().remove(id) && b.partitions_count == a.partitions_count && group_inv(b),
+        GroupEvent::Reassign(n) => (group_wf(a) && members_bound(a)) ==>
+            b.members@.dom() =~= a.members@.dom() && b.partitions_count == n && group_inv(b),
+        GroupEvent::Poll(id) => group_inv(a) ==>
+            b.members@.dom() =~= a.members@.dom() && b.partitions_count == a.partitions_count && group_inv(b),
+    }
+}
+pub open spec fn members_after(es: Seq<GroupEvent>) -> Set<u32>
+    decreases es.len(),
+{
+    if es.len() == 0 { Set::empty() } else {
+        let s = members_after(es.drop_last());
+        match es.last() { GroupEvent::Join(id) => s.insert(id), GroupEvent::Leave(id) => s.remove(id), _ => s }
+    }
+}
+pub open spec fn count_after(n0: u32, es: Seq<GroupEvent>) -> u32
+    decreases es.len(),
+{
+    if es.len() == 0 { n0 } else {
+        match es.last() { GroupEvent::Reassign(n) => n, _ => count_after(n0, es.drop_last()) }
+    }
+}
+// gs[0] is a freshly created group ([C08.new.empty], [C08.inv.new]); every later state is produced by one of the
+// contracted mutators; the member bound holds throughout
+pub open spec fn history(gs: Seq<ConsumerGroup>, es: Seq<GroupEvent>) -> bool {
+    &&& gs.len() == es.len() + 1
+    &&& gs[0].members@ == Map::<u32, ConsumerGroupMember>::empty()
+    &&& group_inv(gs[0])
+    &&& forall|t: int| 0 <= t < es.len() ==> step_contract(#[trigger] gs[t], es[t], gs[t + 1]) && members_bound(gs[t])
+}
+
+// After ANY sequence of join / leave / reassign(create- or delete-partitions) / poll events the invariant holds:
+// the member set is exactly the fold of the joins and leaves, the partition count is the last one announced, and if
+// the group is non-empty every partition id in 1..=count sits in exactly one current member's share, shares differ
+// by at most one, and every cursor stands inside its member's share.
+// label: C08.history
+pub proof fn c08_history(gs: Seq<ConsumerGroup>, es: Seq<GroupEvent>, t: int)
+    requires history(gs, es), 0 <= t <= es.len(),
+    ensures
+        group_inv(gs[t]),
+        gs[t].members@.dom() =~= members_after(es.take(t)),
+        gs[t].partitions_count == count_after(gs[0].partitions_count, es.take(t)),
+        gs[t].members@.len() >= 1 ==> c08_excl(gs[t].members@, gs[t].partitions_count as int) && c08_even(gs[t].members@),
+        forall|k: u32| gs[t].members@.contains_key(k) ==> member_wf(#[trigger] gs[t].members@[k]),
+    decreases t,
+{
+    if t == 0 {
+        assert(es.take(0).len() == 0);
+        assert(gs[0].members@.dom() =~= Set::<u32>::empty());
+    } else {
+        c08_history(gs, es, t - 1);
+        assert(step_contract(gs[t - 1], es[t - 1], gs[t - 1 + 1]));
+        assert(es.take(t).drop_last() =~= es.take(t - 1));
+        assert(es.take(t).last() == es[t - 1]);
+    }
 }
